@@ -33,7 +33,7 @@ def cases(tier, seed):
     for i in range(n):
         fams = ["fine_patch", "refined", "sample"] if i % 5 == 4 else None  # high-resolution regional patches / locally refined closed meshes
         yield {"mesh": gen.random_mesh(rng, 150 if tier == "quick" else 900, families=fams), "dseed": int(rng.integers(0, 10**6)),
-               "source": ["topology", "topology", "topology", "centres_xyz_metres", "centres_xyz_and_lonlat_metres", "mpas", "topology_float32"][int(rng.integers(0, 7))]}
+               "source": ["topology", "topology", "topology", "centres_xyz_metres", "centres_xyz_and_lonlat_metres", "mpas", "topology_float32", "topology_with_node_faces"][int(rng.integers(0, 8))]}
 
 
 def run_case(ctx, case):
@@ -67,6 +67,23 @@ def run_case(ctx, case):
             g = U.open_grid(ds)
         except Exception as e:
             ctx.check("no_exception", False, {"stage": "open_mpas", "exc": core.exc_sig(e)}, {"exc": repr(e), "mesh": d})
+            return
+    elif source == "topology_with_node_faces":
+        # the caller ships the node->faces table too, in its own convention (one-based, padded with -1 / 0), like the face table
+        nfm_ = ref.node_faces(m.faces, m.n_node)
+        fillv, start = [(-1, 0), (-1, 1), (0, 1), (-999, 0)][case["dseed"] % 4]
+        wn = max(1, max(len(v) for v in nfm_.values()))
+        nf_tab = np.full((m.n_node, wn), fillv, dtype=np.int64)
+        for n_, fs in nfm_.items():
+            fs = sorted(fs)
+            nf_tab[n_, : len(fs)] = np.array(fs, dtype=np.int64) + start
+        conn = m.padded(fill=0).astype(np.int64) + start
+        conn[m.padded() == ux.INT_FILL] = fillv
+        lon, lat = m.lonlat()
+        try:
+            g = U.Grid.from_topology(np.array(lon), np.array(lat), conn, fill_value=fillv, start_index=start, node_face_connectivity=nf_tab)
+        except Exception as e:
+            ctx.check("no_exception", False, {"stage": "open_with_node_faces", "exc": core.exc_sig(e)}, {"exc": repr(e), "mesh": d})
             return
     elif source == "topology_float32" and min(float(ref.angle(m.xyz[a], m.xyz[b])) for f in m.faces for a, b in zip(f, f[1:] + f[:1])) > 1e-4:
         # single-precision node coordinates (what most model output files carry): the mesh judged is the one those values denote
